@@ -15,8 +15,8 @@ import (
 
 func init() {
 	core.Register(&core.Property{
-		ID: "C11",
-		Rule: "NetIDs: quick = every NetID with stride 97 plus all field-boundary values for the 8 types, thorough = all 2^24 NetIDs (exhaustive); each combined with DevAddrs {0, 0xFFFFFFFF, two seeded random values}; SetAddrPrefix / NwkID / NetIDType / IsNetID / NetID.Type / NetID.ID are compared with an integer-arithmetic model of the addressing rules, IsNetID additionally on near-miss addresses (one bit flipped in the prefix, the NwkID field and the NwkAddr field, and the same NwkID value under another type). Representations: EUI64, DevAddr, NetID, AES128Key through text (hex, optional 0x), binary (byte-reversed), database Value/Scan, and every wrong length 0..2n. Distinct = (NetID type, DevAddr class, check kind) and (identifier type, representation, length).",
+		ID:          "C11",
+		Rule:        "NetIDs: quick = every NetID with stride 97 plus all field-boundary values for the 8 types, thorough = all 2^24 NetIDs (exhaustive); each combined with DevAddrs {0, 0xFFFFFFFF, two seeded random values}; SetAddrPrefix / NwkID / NetIDType / IsNetID / NetID.Type / NetID.ID are compared with an integer-arithmetic model of the addressing rules, IsNetID additionally on near-miss addresses (one bit flipped in the prefix, the NwkID field and the NwkAddr field, and the same NwkID value under another type). Representations: EUI64, DevAddr, NetID, AES128Key through text (hex, optional 0x), binary (byte-reversed), database Value/Scan, and every wrong length 0..2n. Distinct = (NetID type, DevAddr class, check kind) and (identifier type, representation, length).",
 		Assumptions: []string{"NwkID widths 6/6/9/11/12/13/15/17 and prefix lengths 1..8 as in LoRaWAN Backend Interfaces 1.0 / the property statement"},
 		MinEvals:    1000,
 		Run:         runC11,
@@ -65,10 +65,10 @@ func c11CheckNetID(c *core.Ctx, nid uint32, addrs []uint32) {
 		p := spec.AddrPrefixLen(t)
 		nb := spec.NwkIDBits(t)
 		cands := []uint32{
-			want ^ 1<<uint(31-(ai%p)),           // prefix bit
-			want ^ 1<<uint(31-p-(ai*7)%nb),      // NwkID bit
-			want ^ 1<<uint((ai*5)%(32-p-nb)),    // NwkAddr bit (still a member)
-			a,                                   // the unprefixed address
+			want ^ 1<<uint(31-(ai%p)),        // prefix bit
+			want ^ 1<<uint(31-p-(ai*7)%nb),   // NwkID bit
+			want ^ 1<<uint((ai*5)%(32-p-nb)), // NwkAddr bit (still a member)
+			a,                                // the unprefixed address
 		}
 		// same NwkID value under a neighbouring type
 		for _, t2 := range []int{(t + 1) % 8, (t + 7) % 8} {
@@ -101,29 +101,53 @@ type idCodec struct {
 
 var idCodecs = []idCodec{
 	{"EUI64", 8,
-		func(b []byte) (string, error) { var v lorawan.EUI64; copy(v[:], b); t, e := v.MarshalText(); return string(t), e },
+		func(b []byte) (string, error) {
+			var v lorawan.EUI64
+			copy(v[:], b)
+			t, e := v.MarshalText()
+			return string(t), e
+		},
 		func(s string) ([]byte, error) { var v lorawan.EUI64; e := v.UnmarshalText([]byte(s)); return v[:], e },
 		func(b []byte) ([]byte, error) { var v lorawan.EUI64; copy(v[:], b); return v.MarshalBinary() },
 		func(w []byte) ([]byte, error) { var v lorawan.EUI64; e := v.UnmarshalBinary(w); return v[:], e },
 		func(b []byte) (interface{}, error) { var v lorawan.EUI64; copy(v[:], b); return v.Value() },
 		func(src interface{}) ([]byte, error) { var v lorawan.EUI64; e := v.Scan(src); return v[:], e }},
 	{"DevAddr", 4,
-		func(b []byte) (string, error) { var v lorawan.DevAddr; copy(v[:], b); t, e := v.MarshalText(); return string(t), e },
+		func(b []byte) (string, error) {
+			var v lorawan.DevAddr
+			copy(v[:], b)
+			t, e := v.MarshalText()
+			return string(t), e
+		},
 		func(s string) ([]byte, error) { var v lorawan.DevAddr; e := v.UnmarshalText([]byte(s)); return v[:], e },
 		func(b []byte) ([]byte, error) { var v lorawan.DevAddr; copy(v[:], b); return v.MarshalBinary() },
 		func(w []byte) ([]byte, error) { var v lorawan.DevAddr; e := v.UnmarshalBinary(w); return v[:], e },
 		func(b []byte) (interface{}, error) { var v lorawan.DevAddr; copy(v[:], b); return v.Value() },
 		func(src interface{}) ([]byte, error) { var v lorawan.DevAddr; e := v.Scan(src); return v[:], e }},
 	{"NetID", 3,
-		func(b []byte) (string, error) { var v lorawan.NetID; copy(v[:], b); t, e := v.MarshalText(); return string(t), e },
+		func(b []byte) (string, error) {
+			var v lorawan.NetID
+			copy(v[:], b)
+			t, e := v.MarshalText()
+			return string(t), e
+		},
 		func(s string) ([]byte, error) { var v lorawan.NetID; e := v.UnmarshalText([]byte(s)); return v[:], e },
 		func(b []byte) ([]byte, error) { var v lorawan.NetID; copy(v[:], b); return v.MarshalBinary() },
 		func(w []byte) ([]byte, error) { var v lorawan.NetID; e := v.UnmarshalBinary(w); return v[:], e },
 		func(b []byte) (interface{}, error) { var v lorawan.NetID; copy(v[:], b); return v.Value() },
 		func(src interface{}) ([]byte, error) { var v lorawan.NetID; e := v.Scan(src); return v[:], e }},
 	{"AES128Key", 16,
-		func(b []byte) (string, error) { var v lorawan.AES128Key; copy(v[:], b); t, e := v.MarshalText(); return string(t), e },
-		func(s string) ([]byte, error) { var v lorawan.AES128Key; e := v.UnmarshalText([]byte(s)); return v[:], e },
+		func(b []byte) (string, error) {
+			var v lorawan.AES128Key
+			copy(v[:], b)
+			t, e := v.MarshalText()
+			return string(t), e
+		},
+		func(s string) ([]byte, error) {
+			var v lorawan.AES128Key
+			e := v.UnmarshalText([]byte(s))
+			return v[:], e
+		},
 		func(b []byte) ([]byte, error) { var v lorawan.AES128Key; copy(v[:], b); return v.MarshalBinary() },
 		func(w []byte) ([]byte, error) { var v lorawan.AES128Key; e := v.UnmarshalBinary(w); return v[:], e },
 		func(b []byte) (interface{}, error) { var v lorawan.AES128Key; copy(v[:], b); return v.Value() },
